@@ -123,11 +123,11 @@ func sortedKey[V any](m map[string]V) string {
 // ---- action store ----------------------------------------------------------
 
 type asRec struct {
-	PH              string
-	Pub             int // -1 none
-	PV, PVSig       string
-	PC, PCSig       string
-	hasPV, hasPC    bool
+	PH           string
+	Pub          int // -1 none
+	PV, PVSig    string
+	PC, PCSig    string
+	hasPV, hasPC bool
 }
 
 func asEnc(r asRec) string {
